@@ -25,19 +25,15 @@ inductive Rep (K : Type _) where
   | scalar (a : K)
   | transposed (r : Rep K)
 
-def Rep.rows : Rep K → Nat
-  | .full m => m.rows
-  | .diag n _ => n
-  | .scalar _ => 1
-  | .transposed r => r.cols
-where
-  cols : Rep K → Nat
-  | .full m => m.cols
-  | .diag n _ => n
-  | .scalar _ => 1
-  | .transposed r => Rep.rows r
+/-- (rows, cols) of a representation -/
+def Rep.shape : Rep K → Nat × Nat
+  | .full m => (m.rows, m.cols)
+  | .diag n _ => (n, n)
+  | .scalar _ => (1, 1)
+  | .transposed r => (r.shape.2, r.shape.1)
 
-def Rep.cols : Rep K → Nat := Rep.rows.cols
+def Rep.rows (r : Rep K) : Nat := r.shape.1
+def Rep.cols (r : Rep K) : Nat := r.shape.2
 
 def transposeMat (A : Mat K) : Mat K := ⟨A.cols, A.rows, fun i j => A.e j i⟩
 
